@@ -196,13 +196,9 @@ the voice's instance IS the tree it was in the old program just before the swap 
 site `sj`), everything else as migrated — all output channels, in particular the one observing the voice.
 (`Pnew` in the class of C05's evaluator theorems; `hconf`, `hvoice`: the old `dsp` state conforms to its layout, the
 voice's `self` values have their declared shapes — typing facts.)
-PARTIAL with respect to the statement "the samples of the voice's channel equal those of the uninterrupted run of that
-voice in the OLD program": missing is the lemma that the value and state effect of `call f [const]` are the same in both
-programs and at both store positions (`eval` depends on the program only through the functions reachable from `f` and on
-the store only through the globals and the argument: invariance of `Core.eval` under a shift of store locations and
-under a change of the rest of the program); with it the run on the right-hand side restricted to the voice's channel is
-the old run's. -/
-theorem C07_session_untouched_voice_partial (fuel : Nat) (sr : UInt64) (Pold Pnew : Prog) (lo ln : LNode)
+This form holds for ANY pair of programs (the new one in the class of C05's evaluator theorems); for voice programs
+`C07_session_untouched_voice` below turns the right-hand side into the voice's own uninterrupted stream. -/
+theorem C07_session_untouched_voice_transplant (fuel : Nat) (sr : UInt64) (Pold Pnew : Prog) (lo ln : LNode)
     (preO postO preN postN : List LCell) (si sj : Nat) (self : Option Shape) (cells : List LCell)
     (inputs : Nat → List UInt64) (n : Nat) (m0 mn m : Machine) (o1 : List (List UInt64))
     (hpo : publishFn Pold Pold.dsp = some lo) (hpn : publishFn Pnew Pnew.dsp = some ln)
@@ -382,6 +378,140 @@ theorem C07_session_untouched_voice (fuel fuel₀ : Nat) (sr : UInt64) (Pold Pne
       obtain ⟨valss, e1, e2⟩ := voice_run Pnew P₀ hP hP₀ hsub pre post v obs hname hs1 hs2 d hd fuel fuel₀ hn sr inputs hpar
         hself hbody (k + 1) st' n rows' hr (by rw [heq]; exact hok)
       exact ⟨valss, by rw [e1], fun i hi => by rw [e2 i hi, heq]⟩
+
+/-- **… exactly as in an uninterrupted run.**  If the OLD program is a voice program too, in which the same voice (same
+function, same constant) sits at site `si`, then — under the hypotheses of `C07_session_untouched_voice` — the channels of
+the session after the swap that observe the voice carry, sample for sample, the values the channels observing it carry in
+the UNINTERRUPTED run of the old program from the swap point on (whenever that run and the voice's own run succeed) -/
+theorem C07_session_untouched_voice_as_uninterrupted (fuel fuel₀ : Nat) (sr : UInt64) (Pold Pnew P₀ : Prog) (lo ln : LNode)
+    (preO postO preN postN : List LCell) (self : Option Shape) (cells : List LCell)
+    (pre post preV postV : List Voice) (v vo : Voice) (obs obsO : List String) (d : FnDecl) (n₀ : Nat)
+    (inputs : Nat → List UInt64) (n : Nat) (m0 mn m : Machine) (o1 : List (List UInt64))
+    (hP : SimpleProg Pnew) (hP₀ : SimpleProg P₀) (hsub : SubProg P₀ Pnew)
+    (hname : v.name ∉ post.map (·.name)) (hs1 : v.site ∉ pre.map (·.site)) (hs2 : v.site ∉ post.map (·.site))
+    (hd : findFn P₀.fns v.f = some d) (hn : fuel₀ + pre.length + 3 ≤ fuel)
+    (hpar : Pnew.dsp.params = []) (hself : Pnew.dsp.selfShape = none)
+    (hbody : Pnew.dsp.body = voicesBody (pre ++ v :: post) (.tup (obs.map .var)))
+    -- the old program is a voice program with the same voice
+    (hPo : SimpleProg Pold) (hsubo : SubProg P₀ Pold) (hf : vo.f = v.f) (hc : vo.c = v.c)
+    (hnameo : vo.name ∉ postV.map (·.name)) (hs1o : vo.site ∉ preV.map (·.site)) (hs2o : vo.site ∉ postV.map (·.site))
+    (hno : fuel₀ + preV.length + 3 ≤ fuel)
+    (hparo : Pold.dsp.params = []) (hselfo : Pold.dsp.selfShape = none)
+    (hbodyo : Pold.dsp.body = voicesBody (preV ++ vo :: postV) (.tup (obsO.map .var)))
+    (hpo : publishFn Pold Pold.dsp = some lo) (hpn : publishFn Pnew Pnew.dsp = some ln)
+    (hs : SitesUnique Pnew) (hds : SitesOk Pnew.dsp.body)
+    (hco : lo.cells = preO ++ .child vo.site self cells :: postO)
+    (hcn : ln.cells = preN ++ .child v.site self cells :: postN)
+    (hpub₀ : publishFnN n₀ P₀ d = some ⟨self, cells⟩) (harms₀ : noStateInArmsN n₀ P₀ d.body = true)
+    (hs₀ : SitesUnique P₀) (hd₀ : SitesOk d.body)
+    (hcar : carriesRange (planPatches (publishedSk lo) (publishedSk ln)) (selfSize lo.self + sizeCells preO)
+      (selfSize ln.self + sizeCells preN) (LNode.size ⟨self, cells⟩) = true)
+    (hinit : Machine.init fuel Pold sr = .ok m0) (hinitn : Machine.init fuel Pnew sr = .ok mn)
+    (hpre : prefixRun fuel Pold sr inputs n m0 = some (o1, m))
+    (hconf : Conforms lo m.root) (hvoice : ConformsS ⟨self, cells⟩ (m.root.childAt vo.site))
+    (k : Nat) (rows rowsU : List (List UInt64))
+    (hrun : session fuel sr Pold [(n, Pnew)] inputs (n + k) = some rows)
+    (hrunU : runFrom fuel Pold sr inputs k m = some rowsU)
+    (hok : ∀ o ∈ instRun fuel₀ P₀ d.selfShape d.body (voiceSamples d v.c sr n k) (m.root.childAt vo.site), o ≠ none) :
+    ∃ valss valssU : List (List Val), rows = o1 ++ valss.map flattenVals ∧ rowsU = valssU.map flattenVals ∧
+      ∀ (a b : Nat), obsO[a]? = some vo.name → obs[b]? = some v.name →
+        valss.map (fun vals => vals[b]?) = valssU.map (fun vals => vals[a]?) := by
+  obtain ⟨valss, e1, e2⟩ := C07_session_untouched_voice fuel fuel₀ sr Pold Pnew P₀ lo ln preO postO preN postN vo.site self
+    cells pre post v obs d n₀ inputs n m0 mn m o1 hP hP₀ hsub hname hs1 hs2 hd hn hpar hself hbody hpo hpn hs hds hco hcn
+    hpub₀ harms₀ hs₀ hd₀ hcar hinit hinitn hpre hconf hvoice k rows hrun hok
+  have hmstore : m.store = [] :=
+    prefixRun_store_nil fuel Pold sr inputs n m0 o1 m (init_store_nil fuel Pold sr hPo.1 m0 hinit).1 hpre
+  have htm : m.t = n := by
+    rw [prefixRun_t fuel Pold sr inputs n m0 o1 m hpre, (init_t fuel Pold sr m0 hinit).1]; omega
+  have hm : m = ⟨[], m.root, n⟩ := by cases m; simp_all
+  rw [hm] at hrunU
+  obtain ⟨valssU, u1, u2⟩ := C07_voice_program_channel Pold P₀ hPo hP₀ hsubo preV postV vo obsO hnameo hs1o hs2o d
+    (by rw [hf]; exact hd) fuel fuel₀ hno sr inputs hparo hselfo hbodyo k m.root n rowsU hrunU (by rw [hc]; exact hok)
+  refine ⟨valss, valssU, e1, u1, fun a b ha hb => ?_⟩
+  rw [e2 b hb, u2 a ha, hc]
+
+/-! non-vacuity of `C07_session_untouched_voice`, all hypotheses at once and with a run that does happen: `cnt(x) = self + x`,
+`lag(x) = mem(x)`; old program `let c1 = cnt(1); (c1, c1)` runs ONE sample (`cnt` holds `w = 0 + 1`), then the edit
+`let c2 = lag(2); let c1 = cnt(1); (c2, c1)` is swapped in and runs two samples: the session exists, and channel 1 carries
+the values `cnt` alone returns when continued from the child node that holds `w` (the reference evaluator computes with
+opaque `Float`s: the sums stay symbolic, everything structural is evaluated by the kernel) -/
+example (inputs : Nat → List UInt64) :
+    let cntF : FnDecl := ⟨"cnt", ["x"], .bin .add .self (.var "x"), some .num⟩
+    let lagF : FnDecl := ⟨"lag", ["x"], .mem (.var "x") 1, none⟩
+    let Pold : Prog := ⟨[], [cntF, lagF], ⟨"dsp", [], .letE "c1" (.call "cnt" [.lit 1] 1) (.tup [.var "c1", .var "c1"]), none⟩⟩
+    let Pnew : Prog := ⟨[], [cntF, lagF], ⟨"dsp", [],
+      voicesBody ([⟨"c2", "lag", 2, 2⟩] ++ ⟨"c1", "cnt", 1, 1⟩ :: []) (.tup (["c2", "c1"].map .var)), none⟩⟩
+    let P₀ : Prog := ⟨[], [cntF, lagF], ⟨"dsp", [], .lit 0, none⟩⟩
+    let w := evalBin .add 0 1
+    let m : Machine := ⟨[], .mk none [(1, .child (.mk (some (.num w)) []))], 1⟩
+    ∃ (rows : List (List UInt64)) (valss : List (List Val)), session 20 0 Pold [(1, Pnew)] inputs (1 + 2) = some rows ∧ rows = [[w, w]] ++ valss.map flattenVals ∧
+      ∀ (i : Nat), ["c2", "c1"][i]? = some "c1" → valss.map (fun vals => vals[i]?) =
+        instRun 10 P₀ cntF.selfShape cntF.body (voiceSamples cntF 1 0 1 2) (m.root.childAt 1) := by
+  intro cntF lagF Pold Pnew P₀ w m
+  have hsome : (session 20 0 Pold [(1, Pnew)] inputs (1 + 2)).isSome = true := by rfl
+  obtain ⟨rows, hrows⟩ := Option.isSome_iff_exists.1 hsome
+  have hsu : SitesUnique Pnew := by
+    intro d hd
+    simp only [Pnew, List.mem_cons, List.not_mem_nil, or_false] at hd
+    rcases hd with rfl | rfl <;> simp [SitesOk, siteLens, cntF, lagF]
+  have hsu₀ : SitesUnique P₀ := hsu
+  have hch : m.root.childAt 1 = .mk (some (.num w)) [] := rfl
+  have hvoice : ConformsS ⟨some .num, []⟩ (m.root.childAt 1) := by
+    rw [hch]
+    refine ⟨?_, by simp [ConfSL]⟩
+    intro v hv
+    simp only [SNode.selfv, Option.some.injEq] at hv
+    subst hv; simp [HasShape]
+  have hconf : Conforms ⟨none, [.child 1 (some .num) []]⟩ m.root := by
+    refine ⟨?_, ?_⟩
+    · intro v hv; simp [m, SNode.selfv] at hv
+    · simp only [ConfL, Conf, hch, and_true]
+      intro v hv
+      simp only [SNode.selfv, Option.some.injEq] at hv
+      subst hv; simp [flattenVal, selfSize, shapeSize]
+  obtain ⟨valss, h1, h2⟩ := C07_session_untouched_voice 20 10 0 Pold Pnew P₀
+    ⟨none, [.child 1 (some .num) []]⟩ ⟨none, [.child 2 none [.mem 1], .child 1 (some .num) []]⟩
+    [] [] [.child 2 none [.mem 1]] [] 1 (some .num) [] [⟨"c2", "lag", 2, 2⟩] [] ⟨"c1", "cnt", 1, 1⟩ ["c2", "c1"] cntF 0
+    inputs 1 ⟨[], SNode.empty, 0⟩ ⟨[], SNode.empty, 0⟩ m [[w, w]]
+    ⟨rfl, by intro d hd; simp only [Pnew, List.mem_cons, List.not_mem_nil, or_false] at hd; rcases hd with rfl | rfl <;> rfl⟩
+    ⟨rfl, by intro d hd; simp only [P₀, List.mem_cons, List.not_mem_nil, or_false] at hd; rcases hd with rfl | rfl <;> rfl⟩
+    (fun _ _ h => h) (by simp) (by simp) (by simp) rfl (by decide) rfl rfl rfl rfl rfl hsu
+    (by simp [SitesOk, siteLens, siteLensL, Pnew, voicesBody]) rfl rfl rfl rfl hsu₀
+    (by simp [SitesOk, siteLens, cntF]) (by decide +kernel) rfl rfl rfl
+    hconf hvoice
+    2 rows hrows
+    (by
+      have : (instRun 10 P₀ cntF.selfShape cntF.body (voiceSamples cntF 1 0 1 2) (m.root.childAt 1)).all (·.isSome) = true := by rfl
+      intro o ho hn
+      have := List.all_eq_true.1 this o ho
+      simp [hn] at this)
+  exact ⟨rows, valss, hrows, h1, h2⟩
+
+/-! non-vacuity of `C07_voice_program_channel`: the same voice program from the start, two samples -/
+example (inputs : Nat → List UInt64) :
+    let cntF : FnDecl := ⟨"cnt", ["x"], .bin .add .self (.var "x"), some .num⟩
+    let lagF : FnDecl := ⟨"lag", ["x"], .mem (.var "x") 1, none⟩
+    let P : Prog := ⟨[], [cntF, lagF], ⟨"dsp", [],
+      voicesBody ([⟨"c2", "lag", 2, 2⟩] ++ ⟨"c1", "cnt", 1, 1⟩ :: []) (.tup (["c2", "c1"].map .var)), none⟩⟩
+    ∃ (rows : List (List UInt64)) (valss : List (List Val)),
+      runFrom 20 P 0 inputs 2 ⟨[], SNode.empty, 0⟩ = some rows ∧ rows = valss.map flattenVals ∧
+      ∀ (i : Nat), ["c2", "c1"][i]? = some "c1" → valss.map (fun vals => vals[i]?) =
+        instRun 10 P cntF.selfShape cntF.body (voiceSamples cntF 1 0 0 2) (SNode.empty.childAt 1) := by
+  intro cntF lagF P
+  have hsome : (runFrom 20 P 0 inputs 2 ⟨[], SNode.empty, 0⟩).isSome = true := by rfl
+  obtain ⟨rows, hrows⟩ := Option.isSome_iff_exists.1 hsome
+  have hsp : SimpleProg P :=
+    ⟨rfl, by intro d hd; simp only [P, List.mem_cons, List.not_mem_nil, or_false] at hd; rcases hd with rfl | rfl <;> rfl⟩
+  obtain ⟨valss, h1, h2⟩ := C07_voice_program_channel P P hsp hsp (fun _ _ h => h) [⟨"c2", "lag", 2, 2⟩] []
+    ⟨"c1", "cnt", 1, 1⟩ ["c2", "c1"] (by simp) (by simp) (by simp) cntF rfl 20 10 (by decide) 0 inputs rfl rfl rfl 2
+    SNode.empty 0 rows hrows
+    (by
+      have : (instRun 10 P cntF.selfShape cntF.body (voiceSamples cntF 1 0 0 2) (SNode.empty.childAt 1)).all (·.isSome) = true := by
+        rfl
+      intro o ho hn
+      have := List.all_eq_true.1 this o ho
+      simp [hn] at this)
+  exact ⟨rows, valss, hrows, h1, h2⟩
 
 /-- the judge's test `carriesChild` (child INDICES of the published skeletons) gives the hypothesis `carriesRange` (word
 OFFSETS of the labelled layouts) of the two theorems above, when no child of `dsp` is pruned from the skeletons (every call
